@@ -119,6 +119,16 @@ func c01FuncAtoms() []*ref.Expr {
 		ref.Bin("=", ref.Call("str", iv()), ref.Value()),
 		ref.Bin(">", ref.Bin("*", fv(), ref.Fl(0.5)), ref.Fl(0.5)),
 		ref.Bin("=", ref.Bin("+", iv(), ref.Fl(0.5)), ref.Fl(2.5)),
+		// chains that the optimiser re-associates / folds
+		ref.Bin("=", ref.Bin("+", ref.Bin("+", ref.Key(), ref.S("a")), ref.S("b")), ref.S("aab")),
+		ref.Bin("^=", ref.Bin("+", ref.Bin("+", ref.Value(), ref.S("-")), ref.S("x")), ref.S("1-x")),
+		ref.Bin("=", ref.Bin("+", ref.S("a"), ref.Bin("+", ref.S("b"), ref.Key())), ref.S("aba")),
+		ref.Bin("=", ref.Bin("+", ref.Bin("+", iv(), ref.N(1)), ref.N(2)), ref.N(4)),
+		ref.Bin("=", ref.Bin("*", ref.Bin("*", iv(), ref.N(2)), ref.N(3)), ref.N(12)),
+		ref.Bin("=", ref.Bin("-", ref.Bin("-", iv(), ref.N(1)), ref.N(1)), ref.N(0)),
+		ref.Bin(">", ref.Bin("*", ref.Bin("+", iv(), ref.N(1)), ref.N(2)), ref.Bin("+", ref.N(2), ref.N(3))),
+		ref.Bin("=", ref.Bin("+", ref.Bin("+", fv(), ref.Fl(0.5)), ref.Fl(1.5)), ref.N(3)),
+		ref.Bin("<", ref.Bin("-", ref.N(10), ref.Bin("-", ref.N(3), iv())), ref.N(9)),
 		ref.Bl(true),
 		ref.Bl(false),
 	}
